@@ -306,7 +306,17 @@ def run(check, repo: Repo) -> None:
     cfgp, defp = rf.args.args[0].arg, rf.args.args[1].arg
     clear = _call_nodes(rcfg, lambda c: call_name(c) == f"{cfgp}.clear")
     loops = [n for n in rcfg.nodes if n.kind == "iter" and unparse(n.expr) == defp]
-    ok_clear = bool(clear) and bool(loops) and all(rcfg.dominates(clear[0], l.id) for l in loops)
+    # bulk form: `config.update(merge(*defaults))` (or update(config, merge(*defaults))) — merge() folds the stored defaults left to right into a new dict, which is the
+    # replay in order; whether the result shares sub-tables with the stored defaults is R6's question (nested tables rebuilt, not shared)
+    def _is_bulk(c):
+        a = None
+        if call_name(c) == f"{cfgp}.update" and c.args:
+            a = c.args[0]
+        elif call_name(c) == "update" and len(c.args) >= 2 and dotted(c.args[0]) == cfgp:
+            a = c.args[1]
+        return isinstance(a, ast.Call) and call_name(a) == "merge" and len(a.args) == 1 and isinstance(a.args[0], ast.Starred) and dotted(a.args[0].value) == defp
+    bulk = _call_nodes(rcfg, _is_bulk)
+    ok_clear = bool(clear) and ((bool(loops) and all(rcfg.dominates(clear[0], l.id) for l in loops)) or (bool(bulk) and all(rcfg.dominates(clear[0], b) for b in bulk)))
     check.decide(ok_clear, "C19-R5", "refresh: clears the config before replaying defaults", "", mod.line(rf),
                  fail_detail="refresh does not clear the config before the replay (or does not iterate the whole "
                              "defaults list)")
@@ -318,11 +328,14 @@ def run(check, repo: Repo) -> None:
                 pr = kwarg(c, "priority") or (c.args[2] if len(c.args) > 2 else None)
                 if pr is None or is_const(pr, "new"):
                     replay_ok = True
+    replay_ok = replay_ok or (bool(bulk) and not loops)
     check.decide(replay_ok, "C19-R5", "refresh: replays every default with priority 'new', in order", "", mod.line(rf),
                  fail_detail="the replay loop does not call update(config, d, priority='new') for each stored default")
     collect_after = False
     for n in _call_nodes(rcfg, lambda c: call_name(c) == "update" and len(c.args) >= 2 and isinstance(c.args[1], ast.Call)
                          and call_name(c.args[1]) == "collect"):
+        if bulk and not loops and n in rcfg.reachable_from(bulk[0]):
+            collect_after = True
         if loops and n in rcfg.reachable_from(loops[0].id) and not any(n in {x.id for x in rcfg.nodes if x.stmt in ast.walk(l.stmt) and x.id != l.id} for l in []):
             collect_after = True
     check.decide(collect_after, "C19-R5", "refresh: file/env configuration is applied after the defaults", "", mod.line(rf),
